@@ -14,7 +14,9 @@ Mains == [ m1 |-> [vars |-> {"A"}, refs |-> {}, kinds |-> TRUE],
            m5 |-> [vars |-> {"A"}, refs |-> {R("U9", "same")}, kinds |-> TRUE],
            \* references inside nthChild.ofRule: to an undefined utility, to a defined one
            m6 |-> [vars |-> {"A"}, refs |-> {R("U9", "nthof")}, kinds |-> TRUE],
-           m7 |-> [vars |-> {"A"}, refs |-> {R("U1", "nthof")}, kinds |-> TRUE] ]
+           m7 |-> [vars |-> {"A"}, refs |-> {R("U1", "nthof")}, kinds |-> TRUE],
+           \* a variable captured ONLY inside nthChild.ofRule (N): defined for the checker, so a fix that uses it gets its text
+           m8 |-> [vars |-> {"A", "N"}, refs |-> {}, kinds |-> TRUE] ]
 Utils == [ u0 |-> <<>>,
            u1 |-> [x \in {"U1"} |-> U({}, {})],
            u2 |-> ("U1" :> U({R("U2", "same")}, {})) @@ ("U2" :> U({}, {})),
@@ -57,7 +59,8 @@ Fixes == [ f0 |-> [vars |-> {}, form |-> "string"], f1 |-> [vars |-> {"A"}, form
            f6 |-> [vars |-> {"C"}, form |-> "string"],
            f7 |-> [vars |-> {"C", "D"}, form |-> "string"],
            \* an undefined variable whose name BEGINS with the name of a transformation (X): still undefined
-           f8 |-> [vars |-> {"XY"}, form |-> "string"] ]
+           f8 |-> [vars |-> {"XY"}, form |-> "string"],
+           f9 |-> [vars |-> {"N"}, form |-> "string"] ]
 \* r3: the rewriter's fix uses a variable captured by the enclosing rule (it sees the enclosing environment)
 Rews == [ r0 |-> <<>>, r1 |-> [x \in {"R1"} |-> [hasFix |-> TRUE, refs |-> {}]], r2 |-> [x \in {"R1"} |-> [hasFix |-> FALSE, refs |-> {}]],
           r3 |-> [x \in {"R1"} |-> [hasFix |-> TRUE, refs |-> {}]],
@@ -74,10 +77,10 @@ VARIABLES m, u, c, t, f, r
 vars == <<m, u, c, t, f, r>>
 \* the variants added for references inside nthChild.ofRule / in constraints / in rewriters are combined with a
 \* reduced set of the other parts; all earlier variants are combined with each other in full
-ExtM == {"m6", "m7"}  ExtU == {"u13"}  ExtC == {"c4", "c5", "c6"}  ExtR == {"r4", "r5", "r6", "r7", "r8"}
-Small == [m |-> {"m1", "m2"}, u |-> {"u0", "u1", "u2"}, c |-> {"c0", "c1"}, t |-> {"t0", "t1", "t7"}, f |-> {"f0", "f1", "f2", "f7", "f8"}, r |-> {"r0", "r1"}]
+ExtM == {"m6", "m7", "m8"}  ExtU == {"u13"}  ExtC == {"c4", "c5", "c6"}  ExtR == {"r4", "r5", "r6", "r7", "r8"}
+Small == [m |-> {"m1", "m2"}, u |-> {"u0", "u1", "u2"}, c |-> {"c0", "c1"}, t |-> {"t0", "t1", "t7"}, f |-> {"f0", "f1", "f2", "f7", "f8", "f9"}, r |-> {"r0", "r1"}]
 Init == \/ /\ m \in DOMAIN Mains \ ExtM /\ u \in DOMAIN Utils \ ExtU /\ c \in DOMAIN Cons \ ExtC
-           /\ t \in DOMAIN Trans /\ f \in DOMAIN Fixes \ {"f7"} /\ r \in DOMAIN Rews \ ExtR
+           /\ t \in DOMAIN Trans /\ f \in DOMAIN Fixes \ {"f7", "f9"} /\ r \in DOMAIN Rews \ ExtR
         \/ /\ m \in Small.m \cup ExtM /\ u \in Small.u \cup ExtU /\ c \in Small.c \cup ExtC
            /\ t \in Small.t /\ f \in Small.f /\ r \in Small.r \cup ExtR
            /\ (m \in ExtM \/ u \in ExtU \/ c \in ExtC \/ r \in ExtR)
